@@ -27,12 +27,16 @@ type Case struct {
 	Fill    string `json:"fill"` // pattern | zero | ff
 	UDP     bool   `json:"udp,omitempty"`
 	IOList  bool   `json:"stdio_listener,omitempty"` // local application attached through the real InputOutputListener
+	Quiet   int    `json:"quiet,omitempty"`          // fake seconds the logical connection stays idle before the first write
 }
 
 func (c Case) String() string {
 	l := ""
 	if c.IOList {
 		l = " listener=stdio"
+	}
+	if c.Quiet > 0 {
+		l += fmt.Sprintf(" idle-first=%ds", c.Quiet)
 	}
 	return fmt.Sprintf("%s/%s dir=%s sizes=%v plan=%s fill=%s%s", c.Carrier, c.Sec, c.Dir, c.Sizes, c.Plan, c.Fill, l)
 }
@@ -131,7 +135,7 @@ func execute(t *testing.T, c Case) (kind, detail string, res bubble.Result) {
 		var app *world.Endpoint
 		if c.IOList {
 			if app, err = w.OpenAppIO("x", downF); err != nil {
-				kind, detail = "setup", "InputOutputListener.Start: " + err.Error()
+				kind, detail = "setup", "InputOutputListener.Start: "+err.Error()
 				return
 			}
 		} else {
@@ -151,6 +155,9 @@ func execute(t *testing.T, c Case) (kind, detail string, res bubble.Result) {
 		if tg == nil {
 			kind, detail = "no-connection", fmt.Sprintf("target never dialled; front=%q accept=%v", w.Front.Err, w.AcceptErrs)
 			return
+		}
+		if c.Quiet > 0 {
+			bubble.Advance(time.Duration(c.Quiet) * time.Second)
 		}
 		total := sum(c.Sizes)
 		if c.Dir == "up" || c.Dir == "both" {
@@ -272,6 +279,9 @@ func cases(thorough bool) []Case {
 						continue
 					}
 					out = append(out, Case{Carrier: v.carrier, Sec: v.sec, Dir: dir, Sizes: sq, Plan: plan, Fill: "pattern"})
+					if plan == "default" && !big && len(sq) == 1 && (sq[0] == 1 || sq[0] == 65537) {
+						out = append(out, Case{Carrier: v.carrier, Sec: v.sec, Dir: dir, Sizes: sq, Plan: plan, Fill: "pattern", Quiet: 40})
+					}
 					if plan == "default" && !big && v.sec != "tls" {
 						out = append(out, Case{Carrier: v.carrier, Sec: v.sec, Dir: dir, Sizes: sq, Plan: plan, Fill: "pattern", IOList: true})
 					}
